@@ -227,7 +227,7 @@ def hwbToHsv (c : V3 α) : V3 α :=
   let saturation := lazySelect (isValidDivisor value) (1.0 - c.c1 / value) 0.0
   ⟨c.c0, saturation, value⟩
 
-/-- the hue part shared by the branch-free `Rgb → Hsv` and `Rgb → Hsl` (hsv.rs:336-385, hsl.rs:345-394), in degrees -/
+/-- the hue part shared by the branch-free `Rgb → Hsv` and `Rgb → Hsl` (hsv.rs:336-385, hsl.rs:350-399), in degrees -/
 def maskHue (red green blue value chroma : α) : α :=
   let six : α := 6.0
   -- the maximum component is `false`, the other two `true`
@@ -252,7 +252,7 @@ def rgbToHsvMask (c : V3 α) : V3 α :=
   let saturation := lazySelect (eq chroma 0.0) 0.0 (chroma / value)
   ⟨maskHue red green blue value chroma, saturation, value⟩
 
-/-- hsl.rs:322-399: `Rgb → Hsl`, the branch taken when `T::Mask` is not `bool` -/
+/-- hsl.rs:325-404: `Rgb → Hsl`, the branch taken when `T::Mask` is not `bool` -/
 def rgbToHslMask (c : V3 α) : V3 α :=
   let red := max c.c0 0.0; let green := max c.c1 0.0; let blue := max c.c2 0.0
   let mx := max (max red green) blue
@@ -260,7 +260,8 @@ def rgbToHslMask (c : V3 α) : V3 α :=
   let sum := mx + mn
   let lightness := 0.5 * sum
   let chroma := mx - mn
-  let saturation := lazySelect (eq mn mx) 0.0 (chroma / select (gt sum 1.0) (2.0 - sum) sum)
+  -- `(1 − max) + (1 − min)` instead of `2 − sum` (repair 4f36dd5: `2 − sum` rounds to 0 next to white)
+  let saturation := lazySelect (eq mn mx) 0.0 (chroma / select (gt sum 1.0) ((1.0 - mx) + (1.0 - mn)) sum)
   ⟨maskHue red green blue mx chroma, saturation, lightness⟩
 
 /-- `impl_clamp!` for `Rgb` on a mask-generic component: every channel `crate::clamp(c, 0, 1)` (wide: `min` then `max`) -/
@@ -293,17 +294,18 @@ def rgbToHsvScalar (c : V3 α) : V3 α :=
     if green < blue then hsvOfParts blue red (red - green) 4.0
     else hsvOfParts green (if blue < red then blue else red) (blue - red) 2.0
 
-/-- hsl.rs:301-321 -/
+/-- hsl.rs:301-324 -/
 def hslOfParts (mx mn sep coeff : α) : V3 α :=
   let sum := mx + mn
   let l := sum / 2.0
   if ¬ eqv mx mn then
     let d := mx - mn
-    let s := if 1.0 < sum then d / (2.0 - sum) else d / sum
+    -- `inverted_sum = (1 − max) + (1 − min)` instead of `2 − sum` (repair 4f36dd5)
+    let s := if 1.0 < sum then d / ((1.0 - mx) + (1.0 - mn)) else d / sum
     ⟨(sep / d + coeff) * 60.0, s, l⟩
   else ⟨0.0, 0.0, l⟩
 
-/-- hsl.rs:282-321: `Rgb → Hsl`, the branch taken for `f32`/`f64` -/
+/-- hsl.rs:282-324: `Rgb → Hsl`, the branch taken for `f32`/`f64` -/
 def rgbToHslScalar (c : V3 α) : V3 α :=
   let red := Scalar.max c.c0 0.0; let green := Scalar.max c.c1 0.0; let blue := Scalar.max c.c2 0.0
   if green < red then
